@@ -87,8 +87,12 @@ Print Assumptions C11_source_unchanged.
    FAILS.  Model/ArchiveOut.v: what the file system answers about the -o argument when the command starts (given?
    exists? a directory? parent exists? parent a directory?) and which step of archive.main raises (any, or none) are
    arbitrary.
-   (1) When handle_output_path refuses (-o names an existing file, or a path whose parent is no directory) nothing at
-       all is touched: the only step entered is handle_output_path itself.
+   Scope: the steps of archive.main AFTER `ctx = Context.from_cwd()`.  Building the context is common to every subcommand and is
+   not free of effects: it creates cond-out/ and an empty version index in a fresh project and upgrades a format-1 index in place
+   (with its backup file); step 2 (compute_tasks_to_archive) evaluates COND files.  None of that is modelled here; [touches_files]
+   speaks about the temporary archive index and the output file only.
+   (1) When handle_output_path refuses (-o names an existing file, a generated name that is taken, or a path whose parent is no
+       directory) none of these files is touched: the only step entered is handle_output_path itself.
    (2) A failure in one of the three steps before the try block (bad identifier, task not found, cycle, nothing
        archivable in the closure) touches no file either.
    (3) An existing regular file named by -o is never written and never removed, whichever step fails.
@@ -122,8 +126,11 @@ Proof.
 Qed.
 Print Assumptions C11_output_removed_only_if_it_was_absent.
 
-(* the temporary index cond-out/version_index_archive.sqlite never outlives the command; a failure inside the try
-   block is followed by the removal of the (partial) output file, the re-raise and the removal of the index *)
+(* the temporary index cond-out/version_index_archive.sqlite does not outlive a command that ends by returning or by an
+   exception (the `finally:`; a process killed by a signal it does not handle -- SIGKILL, or SIGTERM/SIGINT outside `cond run`'s
+   handlers -- leaves it behind, and the next `cond archive` unlinks it first: step 4); a failure inside the try block is followed by
+   the removal of the (partial) output file, the re-raise and the removal of the index.  [fail_at] beyond the last step denotes
+   no real execution (the trace then equals that of a failure in the last step plus the steps after it). *)
 Theorem C11_temporary_index_is_removed : forall p f,
   existsb (fun c => c =? 5) (archive_main p f) = true -> last (archive_main p f) 0 = 4.
 Proof. exact temp_index_removed. Qed.
